@@ -517,6 +517,42 @@ def run(pid, tier, replay=None):
     for k in range(0, len(traces), B):
         judge(chk, traces[k:k + B], labels[k:k + B], consts)
     if pid == "C13":
+        # ---- the wallet's send script runs next to the node's pool: its real main() with a real (unstarted) NetworkingThread; while it waits
+        #      for a fresh chain the network thread adopts a block that spends the very output the wallet is about to use (an earlier session's
+        #      spend got confirmed) -- or nothing happens.  Whatever the script does, the pending pool of its node holds only transactions that
+        #      are valid at the node's head.
+        from harness import scripts_drv
+        from skepticoin.humans import human
+        import json as _json
+        import os as _os
+        sk.apply_cfg(cfg)
+        keys_s = sk.Keys(6)
+        facts = []
+        for variant in ("chain_moves_on_while_waiting", "nothing_happens"):
+            w_s, g_s, blocks_s, txs_s = build_universe(cfg, keys_s)
+            cs_s = w_s.T["CoinState"].empty().add_block_no_validation(g_s).add_block_no_validation(blocks_s[1])
+            spent_elsewhere = w_s.concretise(blk(60, 1, 2, [cb(60, 2, 4), tx(601, [(0, 0, 1)], [(8, 3)])]), owners={1: {0: 1}})
+            cs_next = cs_s.add_block_no_validation(spent_elsewhere)
+
+            def advance(local_peer, cs_next=cs_next):
+                local_peer.chain_manager.set_coinstate(cs_next)
+            evs, killed, code, raised, nkeys = scripts_drv.run("send", keys_s, cs_s, ["3", "sashimi", "SKE" + human(keys_s.pub[6]) + "PTI"], 0,
+                                                               advance=advance if variant == "chain_moves_on_while_waiting" else None)
+            try:
+                rep = _json.load(open(_os.path.join(scripts_drv.run.last_dir, "pool.json")))
+            except Exception:
+                rep = None
+            if rep is None:
+                chk.notes.append("send script (%s): no report of the pool (%s)" % (variant, raised))
+                continue
+            facts.append({"clause": "C13:pending_transaction_not_valid_at_head", "holds": rep["not_valid_at_head_or_conflicting"] == 0,
+                          "what": "send script, %s: %s" % (variant, rep)})
+            chk.case(("send_script_pool", variant), nontrivial=True)
+        if facts:
+            vf, rf = tracecheck.run("TraceFacts", facts, {}, ids=[1], workers=1, timeout=300)
+            chk.traces_validated += 1
+            for (line, clause) in tlc.tagged(rf, "FINDING"):
+                chk.violation(clause, {"run": facts[line - 1]["what"]}, {"clause": clause})
         # ---- admission of a transaction on one thread while another thread replaces the chain state (PoolLock): design level, then
         #      preemption-point exploration on real threads (A = add_transaction_to_pool stopped before every line of manager.py,
         #      B = set_coinstate with a head that spends the transaction's input)
@@ -575,6 +611,7 @@ def run(pid, tier, replay=None):
         if pid == "C09":
             handover.stage_adversarial(chk, quick, rng, pid, cfg, keys, build_universe, lambda w_, b_: b_[7], "reward_above_subsidy_plus_fees")
         if pid == "C12":
+            handover.stage_stale_snapshot(chk, pid, cfg, keys, build_universe)
             # ---- the found block sent back by a neighbour while the miner's thread is still handling it (Echo)
             from checks import echo
             sk.apply_cfg(cfg)
